@@ -2,6 +2,7 @@
 from __future__ import annotations
 
 import copy
+import json
 
 from .. import core, qeval, qgen
 from .. import gen as G
@@ -146,6 +147,20 @@ def evaluate(ctx, cases):
                 want = {"err": "JSONPatchError"}
             if impl != want:
                 ctx.violation("using the match's pointer as a patch target must behave as if the match's location had been addressed directly", {**where, "form": form}, impl, want)
+            if form == "pointer-text" and isinstance(doc, (dict, list)):
+                # the document handed over as JSON text (the same text again and again, for every match and operation):
+                # each application starts from what the text says
+                try:
+                    jtext = json.dumps(doc, ensure_ascii=False)
+                except (TypeError, ValueError):
+                    jtext = None
+                if jtext is not None:
+                    ctx.count("document-as-json-text")
+                    ot = core.outcome(lambda: p.apply(jtext))
+                    it = {"ok": core.canon(ot["ok"])} if "ok" in ot else {"err": ot["err"]}
+                    if it != want:
+                        ctx.violation("using the match's pointer as a patch target on the document given as JSON text must behave as if the match's location had been addressed directly",
+                                      {**where, "form": form, "document": "json text"}, it, want)
 
 
 def search(ctx):
